@@ -73,6 +73,79 @@ func FieldBy(n *types.Named, what string, pred func(f *types.Var) bool) *types.V
 	return found
 }
 
+// FieldByUse finds the field of n satisfying pred; when several do, the tie is broken by BEHAVIOUR: the unique
+// candidate accessed (loaded / stored / address taken) in every one of the given methods of n (exported API), then -
+// as a last resort - by the name hint. Adding an unrelated field of the same type to a struct therefore does not
+// break role resolution.
+func (p *Prog) FieldByUse(n *types.Named, what string, pred func(f *types.Var) bool, methods []string, nameHint string) *types.Var {
+	st, ok := n.Underlying().(*types.Struct)
+	if !ok {
+		Failf("role unresolved: %s is not a struct", n.Obj().Name())
+	}
+	var cands []*types.Var
+	for i := 0; i < st.NumFields(); i++ {
+		if pred(st.Field(i)) {
+			cands = append(cands, st.Field(i))
+		}
+	}
+	if len(cands) == 0 {
+		Failf("role unresolved: field %s of %s", what, n.Obj().Name())
+	}
+	if len(cands) == 1 {
+		return cands[0]
+	}
+	used := func(f *types.Var, fn *ssa.Function) bool {
+		if fn == nil {
+			return false
+		}
+		for _, b := range fn.Blocks {
+			for _, in := range b.Instrs {
+				if fa, ok := in.(*ssa.FieldAddr); ok {
+					if fv, _ := FieldOfAddr(fa); fv == f {
+						return true
+					}
+				}
+				if fl, ok := in.(*ssa.Field); ok {
+					if st2, ok := fl.X.Type().Underlying().(*types.Struct); ok && st2.Field(fl.Field) == f {
+						return true
+					}
+				}
+			}
+		}
+		return false
+	}
+	var byUse []*types.Var
+	for _, c := range cands {
+		all := len(methods) > 0
+		for _, m := range methods {
+			if !used(c, p.Method(n, m)) {
+				all = false
+			}
+		}
+		if all {
+			byUse = append(byUse, c)
+		}
+	}
+	if len(byUse) == 1 {
+		return byUse[0]
+	}
+	pool := byUse
+	if len(pool) == 0 {
+		pool = cands
+	}
+	for _, c := range pool {
+		if c.Name() == nameHint {
+			return c
+		}
+	}
+	var names []string
+	for _, c := range cands {
+		names = append(names, c.Name())
+	}
+	Failf("role ambiguous: field %s of %s (%s)", what, n.Obj().Name(), strings.Join(names, ", "))
+	return nil
+}
+
 func fieldNamed(n *types.Named, name string) *types.Var {
 	return FieldBy(n, name, func(f *types.Var) bool { return f.Name() == name })
 }
@@ -124,36 +197,36 @@ func resolveRoles(p *Prog) *Roles {
 	ptrTo := func(s string) func(*types.Var) bool {
 		return func(f *types.Var) bool { return TypeIs(f.Type(), s) }
 	}
-	r.DBMu = FieldBy(r.DB, "writer lock", func(f *types.Var) bool {
+	r.DBMu = p.FieldByUse(r.DB, "writer lock", func(f *types.Var) bool {
 		return TypeIs(f.Type(), "*sync.RWMutex") || TypeIs(f.Type(), "sync.RWMutex")
-	})
-	r.DBActive = FieldBy(r.DB, "active file", ptrTo("*"+df+".DataFile"))
-	r.DBOlder = FieldBy(r.DB, "older files", ptrTo("map[uint32]*"+df+".DataFile"))
-	r.DBIndex = FieldBy(r.DB, "index", ptrTo("*"+idx+".ShardedIndex"))
-	r.DBFileLock = FieldBy(r.DB, "dir lock", ptrTo("*github.com/gofrs/flock.Flock"))
-	r.DBOptions = FieldBy(r.DB, "options", ptrTo(root+".Options"))
-	r.DBPool = FieldBy(r.DB, "record pool", ptrTo("*sync.Pool"))
+	}, []string{"Put", "Stat", "Close"}, "mu")
+	r.DBActive = p.FieldByUse(r.DB, "active file", ptrTo("*"+df+".DataFile"), []string{"Sync", "Stat", "Close"}, "activeFile")
+	r.DBOlder = p.FieldByUse(r.DB, "older files", ptrTo("map[uint32]*"+df+".DataFile"), []string{"Stat", "Close"}, "olderFiles")
+	r.DBIndex = p.FieldByUse(r.DB, "index", ptrTo("*"+idx+".ShardedIndex"), []string{"Put", "Get"}, "index")
+	r.DBFileLock = p.FieldByUse(r.DB, "dir lock", ptrTo("*github.com/gofrs/flock.Flock"), nil, "fileLock")
+	r.DBOptions = p.FieldByUse(r.DB, "options", ptrTo(root+".Options"), []string{"Backup"}, "options")
+	r.DBPool = p.FieldByUse(r.DB, "record pool", ptrTo("*sync.Pool"), []string{"Put", "Delete"}, "recordPool")
 
-	r.BatchDB = FieldBy(r.Batch, "db", ptrTo("*"+root+".DB"))
-	r.BatchMu = FieldBy(r.Batch, "mutex", func(f *types.Var) bool {
+	r.BatchDB = p.FieldByUse(r.Batch, "db", ptrTo("*"+root+".DB"), []string{"Commit"}, "db")
+	r.BatchMu = p.FieldByUse(r.Batch, "mutex", func(f *types.Var) bool {
 		return TypeIs(f.Type(), "sync.RWMutex") || TypeIs(f.Type(), "sync.Mutex") || TypeIs(f.Type(), "*sync.RWMutex")
-	})
-	r.BatchCommitted = FieldBy(r.Batch, "committed flag", ptrTo("bool"))
-	r.BatchID = FieldBy(r.Batch, "batch id", ptrTo("github.com/bwmarrin/snowflake.ID"))
-	r.BatchStaged = FieldBy(r.Batch, "staged", ptrTo("[]*"+df+".LogRecord"))
-	r.BatchOpts = FieldBy(r.Batch, "options", ptrTo(root+".BatchOptions"))
+	}, []string{"Put", "Get", "Commit"}, "mu")
+	r.BatchCommitted = p.FieldByUse(r.Batch, "committed flag", ptrTo("bool"), []string{"Put", "Get", "Commit"}, "committed")
+	r.BatchID = p.FieldByUse(r.Batch, "batch id", ptrTo("github.com/bwmarrin/snowflake.ID"), []string{"Commit"}, "batchID")
+	r.BatchStaged = p.FieldByUse(r.Batch, "staged", ptrTo("[]*"+df+".LogRecord"), []string{"Commit"}, "staged")
+	r.BatchOpts = p.FieldByUse(r.Batch, "options", ptrTo(root+".BatchOptions"), nil, "options")
 
 	r.DFReadWriter = fieldNamed(r.DataFile, "ReadWriter")
 	r.DFID = fieldNamed(r.DataFile, "ID")
-	r.DFClosed = FieldBy(r.DataFile, "closed flag", ptrTo("bool"))
+	r.DFClosed = p.FieldByUse(r.DataFile, "closed flag", ptrTo("bool"), []string{"Close", "Sync", "ReadRecordValue", "WriteLogRecord"}, "closed")
 	r.LRType, r.LRKey, r.LRValue, r.LRBatchID = fieldNamed(r.LogRecord, "Type"), fieldNamed(r.LogRecord, "Key"), fieldNamed(r.LogRecord, "Value"), fieldNamed(r.LogRecord, "BatchID")
 	r.PosFid, r.PosBlock, r.PosOffset, r.PosSize = fieldNamed(r.DataPos, "Fid"), fieldNamed(r.DataPos, "BlockID"), fieldNamed(r.DataPos, "Offset"), fieldNamed(r.DataPos, "Size")
 	r.OptSync, r.OptBytesPerSync, r.OptFileSize = fieldNamed(r.Options, "SyncStrategy"), fieldNamed(r.Options, "BytesPerSync"), fieldNamed(r.Options, "DataFileSize")
 	r.OptIOType, r.OptIndexType, r.OptShardNum, r.OptDir = fieldNamed(r.Options, "FileIOType"), fieldNamed(r.Options, "IndexType"), fieldNamed(r.Options, "ShardNum"), fieldNamed(r.Options, "DirPath")
 	r.BOptSync = fieldNamed(r.BatchOptions, "Sync")
-	r.MMapMap = FieldBy(r.MMap, "mapping", ptrTo("github.com/edsrzf/mmap-go.MMap"))
-	r.MMapFile = FieldBy(r.MMap, "file", ptrTo("*os.File"))
-	r.FileIOFd = FieldBy(r.FileIO, "fd", ptrTo("*os.File"))
+	r.MMapMap = p.FieldByUse(r.MMap, "mapping", ptrTo("github.com/edsrzf/mmap-go.MMap"), []string{"Sync", "Read", "Write"}, "activeMap")
+	r.MMapFile = p.FieldByUse(r.MMap, "file", ptrTo("*os.File"), []string{"Close"}, "file")
+	r.FileIOFd = p.FieldByUse(r.FileIO, "fd", ptrTo("*os.File"), []string{"Sync", "Close", "Write"}, "fd")
 	r.StatDisk, r.StatReclaim = fieldNamed(r.Stat, "DiskSize"), fieldNamed(r.Stat, "ReclaimableSize")
 
 	it := r.ReadWriter.Underlying().(*types.Interface)
